@@ -379,6 +379,9 @@ func (p *program) parseArgs(args []string) error {
 	if err := p.flagSet.Parse(args); err != nil {
 		return err
 	}
+	if _, err := linter.ParseGoVersion(p.goVersion); err != nil {
+		return fmt.Errorf("-go: %w", err)
+	}
 
 	p.packages = p.flagSet.Args()
 	p.filters.enable = strings.Split(*enable, ",")
